@@ -1,9 +1,9 @@
 #!/bin/bash
-# usage: confirm_all.sh Cxx ... : runs confirm_seeded for patch1/patch2 of each, output to /tmp/wt-out/Cxx/confirmN.txt
+# usage: confirm_all.sh Cxx ... : runs confirm_seeded for patch1/patch2 of each, output to ${OUTBASE:-/tmp/wt-out}/Cxx/confirmN.txt
 for id in "$@"; do
   ( for n in 1 2; do
-      feat=""; grep -q 'feature *= *"\(cached\|watcher\)"' /tmp/wt-out/$id/demo$n.rs 2>/dev/null && feat="cached,watcher"
-      /verif/tools/confirm_seeded.sh /tmp/wt/$id /tmp/wt-out/$id/patch$n.diff /tmp/wt-out/$id/demo$n.rs $feat > /tmp/wt-out/$id/confirm$n.txt 2>&1
+      feat=""; grep -q 'feature *= *"\(cached\|watcher\)"' ${OUTBASE:-/tmp/wt-out}/$id/demo$n.rs 2>/dev/null && feat="cached,watcher"
+      /verif/tools/confirm_seeded.sh ${WTBASE:-/tmp/wt}/$id ${OUTBASE:-/tmp/wt-out}/$id/patch$n.diff ${OUTBASE:-/tmp/wt-out}/$id/demo$n.rs $feat > ${OUTBASE:-/tmp/wt-out}/$id/confirm$n.txt 2>&1
     done ) &
 done
 wait
